@@ -430,6 +430,10 @@ func (w *Walker) evalCall(call *ast.CallExpr, st *State, nres int) []callRes {
 				id := "cb:" + sel.Sel.Name
 				if owner != "Config" {
 					id = "fieldcall:" + owner + "." + sel.Sel.Name
+					if w.Fn.Pkg.PkgPath == modPath {
+						// a function stored in a field of the library's own structs: the callee is not resolved
+						w.undecided(call, "call through the function-valued field "+owner+"."+sel.Sel.Name)
+					}
 				}
 				w.siteExt(call, id, c.st, nil, c.args)
 				out = append(out, callRes{c.st, w.cbResult(id, call, c.args, nres)})
